@@ -148,8 +148,9 @@ def _worker(spec):
             if pick[1]:
                 agg.stats['known_finding_runs'] += 1
         if mine and (len(agg.violations) < 6 or (not pick[1] and len(agg.violations) < 12)):
-            agg.violations.append(dict(seed=seed, family=fam.name, case=case,
-                                       choices=rle(res.choices),
+            vcase, vchoices = pick[0].repro if pick[0].repro else (case, res.choices)
+            agg.violations.append(dict(seed=seed, family=fam.name, case=vcase,
+                                       choices=rle(vchoices),
                                        violation=pick[0].to_json(),
                                        signature=pick[0].signature(),
                                        known=pick[1]))
